@@ -27,20 +27,23 @@ static void prop(Tape &t, Ctx &c) {
     int ems1 = t.coin() ? 0 : -1, ems2 = t.coin() ? 0 : -1;
     bool tk1 = t.coin(), tk2 = t.coin();
     bool same_sid = !t.chance(1, 8);       // second connection presents the first one's session handle
+    // the first connection may have been made with a listener of the same process that does NOT ask for client certificates (one key set,
+    // one global session cache): such a session was never client-authenticated and must not stand in for authentication later
+    bool first_unauth = t.chance(1, 4);
     int id2 = (int) t.below(ID_N);
-    std::string desc = fmt("%s first=[%s %s ems=%d ticket=%d] second=[%s %s ems=%d ticket=%d sid=%s identity=%s]", auth == AUTH_RSA ? "rsa" : "ec", ver_name(v1), s1.name, ems1, tk1,
+    std::string desc = fmt("%s first=[%s%s %s ems=%d ticket=%d] second=[%s %s ems=%d ticket=%d sid=%s identity=%s]", auth == AUTH_RSA ? "rsa" : "ec", first_unauth ? "NO-CLIENT-AUTH " : "", ver_name(v1), s1.name, ems1, tk1,
                            ver_name(v2), s2.name, ems2, tk2, same_sid ? "from-first" : "fresh", idname[id2]);
     c.sample(desc); if (c.verbose) fprintf(stderr, "case: %s\n", desc.c_str());
     vfh_entropy_reset(31000 + es); vfh_clock_set_ms(1000000);
     matrixSslClose(); matrixSslOpen();    // empty server session cache
     sslSessionId_t *sid = nullptr; if (matrixSslNewSessionId(&sid, NULL) < 0) throw Discard{};
     struct G { sslSessionId_t *s; sslKeys_t *k = nullptr; ~G() { matrixSslDeleteSessionId(s); if (k) matrixSslDeleteKeys(k); } } g{ sid };
-    auto connect = [&](Pair &p, int ver, const Suite &su, int ems, bool tk, sslSessionId_t *s, int identity, int estream) {
+    auto connect = [&](Pair &p, int ver, const Suite &su, int ems, bool tk, sslSessionId_t *s, int identity, int estream, bool server_asks = true) {
         Config cc, sc; cc.client = true; sc.client = false;
         cc.versions = sc.versions = { ver }; cc.suites = { su.id }; cc.auth = sc.auth = auth;
         cc.entropy_stream = estream; sc.entropy_stream = estream + 1;
         cc.sid = s; cc.ems = ems; cc.tickets = tk;
-        sc.client_auth = true; sc.cert_cb = strict_cb;
+        sc.client_auth = server_asks; sc.cert_cb = strict_cb;
         cc.client_auth = identity != ID_NONE;
         if (identity == ID_UNKNOWN_CA) cc.keys = g.k;
         if (p.s.open(sc) < 0 || p.c.open(cc) < 0) return false;
@@ -50,9 +53,9 @@ static void prop(Tape &t, Ctx &c) {
     // ---- first connection: authenticated
     {
         Pair p; g_cb_calls = 0; g_cb_last = -1;
-        if (!connect(p, v1, s1, ems1, tk1, sid, ID_GOOD, 1)) throw Discard{};
-        VF_CHECK(p.c.hs_complete() && p.s.hs_complete() && p.c.alive() && p.s.alive(), "harness-priming-handshake-failed", "authenticated first connection did not complete (srv rc=%d cli rc=%d); %s", p.s.last_rc, p.c.last_rc, desc.c_str());
-        VF_CHECK(g_cb_calls > 0 && g_cb_last == 0, "callback-registered-but-not-called", "first (full) handshake completed with callback calls=%d last alert=%d; %s", g_cb_calls, g_cb_last, desc.c_str());
+        if (!connect(p, v1, s1, ems1, tk1, sid, first_unauth ? ID_NONE : ID_GOOD, 1, !first_unauth)) throw Discard{};
+        VF_CHECK(p.c.hs_complete() && p.s.hs_complete() && p.c.alive() && p.s.alive(), "harness-priming-handshake-failed", "first connection did not complete (srv rc=%d cli rc=%d); %s", p.s.last_rc, p.c.last_rc, desc.c_str());
+        if (!first_unauth) VF_CHECK(g_cb_calls > 0 && g_cb_last == 0, "callback-registered-but-not-called", "first (full) handshake completed with callback calls=%d last alert=%d; %s", g_cb_calls, g_cb_last, desc.c_str());
         p.run(10);   // TLS 1.3 tickets
     }
     if (id2 == ID_UNKNOWN_CA) {
@@ -75,6 +78,9 @@ static void prop(Tape &t, Ctx &c) {
         VF_CHECK(id2 == ID_GOOD, "handshake-completed-with-unauthenticated-peer", "server requiring client authentication completed a full (not resumed) handshake with a client presenting %s; callback calls=%d last alert=%d; %s", idname[id2], g_cb_calls, g_cb_last, desc.c_str());
         VF_CHECK(g_cb_calls > 0 && g_cb_last == 0, "callback-registered-but-not-called", "full handshake completed with callback calls=%d last alert=%d; %s", g_cb_calls, g_cb_last, desc.c_str());
     }
+    if (first_unauth) c.count("first-connection-without-client-auth");
+    if (done && s_res && first_unauth)
+        VF_CHECK(false, "resumed-session-that-was-never-client-authenticated", "a server requiring client authentication resumed a session that was established without it (client identity now: %s; callback calls=%d); %s", idname[id2], g_cb_calls, desc.c_str());
     if (done && s_res) {
         VF_CHECK(same_sid, "resumed-without-session-handle", "server reports a resumed session although the client presented a fresh handle; %s", desc.c_str());
         VF_CHECK(c_res, "resumption-view-differs", "server reports a resumed session, the client a full one; %s", desc.c_str());
